@@ -52,7 +52,7 @@ Inductive stmt :=
 | SPanic (k : N)                 (* `panic_any(Pp(k))` *)
 | SSeq (a b : stmt)
 | SIf (c : cond) (a b : stmt)
-| SAwait (k : N).                (* `.await` of a future that yields once *)
+| SAwait (k : N).                (* `.await` of a future that yields once; [k] names the await site *)
 
 (** `fn`, `async fn`, and a `fn` whose last expression is `Box::pin(async move {..})` / `async move {..}`
     (the async-trait >= 0.1.44 shape recognised by `AsyncInfo::from_fn`). *)
@@ -70,8 +70,11 @@ Inductive fexpr :=
 | FxNum (j n : N)                (* fx(j, n): expression number j, over a literal *)
 | FxPrim (j p : N)               (* fx(j, p as u64): over a primitive parameter *)
 | FxRec (j p : N)                (* fxr(j, &p): over a recorder parameter *)
-| FxEmpty.                       (* a bare name: `tracing::field::Empty` *)
-Inductive fname := FnParam (p : N) | FnCustom (j : N).   (* a custom field may reuse a parameter's name *)
+| FxEmpty                        (* a bare name: `tracing::field::Empty` *)
+| FxShort (p : N) (t : ptype).   (* `?p` / `%p`: the parameter itself (of type t), no expression written *)
+(** a custom field may reuse a parameter's name (it then replaces the parameter's own field); a dotted name
+    `p.dJ` whose first segment is a parameter's name does not (attr.rs: `first != name.last()`) *)
+Inductive fname := FnParam (p : N) | FnCustom (j : N) | FnDot (p j : N).
 Record cfield := mkCF { cf_name : fname; cf_kind : fkindc; cf_expr : fexpr }.
 Inductive parentx := PxNone | PxHelper (k : N).          (* `parent = None` / `parent = hp(k)` *)
 
@@ -111,7 +114,8 @@ Inductive entry :=
 | TFollows (k : N) | TEnter | TExit | TClose
 | TEvent (level : N) (target : option N) (is_err : bool) (display : bool) (v : val).
 
-Inductive result := RVal (v : val) | RPanic (k : N).
+(** [RCancelled]: the caller dropped the future while it was suspended (a future that is never resumed). *)
+Inductive result := RVal (v : val) | RPanic (k : N) | RCancelled.
 
 (** * The collector's verdicts *)
 Record collector := mkCol {
@@ -151,7 +155,14 @@ Fixpoint eval_expr (args : N -> N) (e : expr) (lv : live) : list entry * live * 
 Fixpoint recs_of (v : val) : list N :=
   match v with VRec p => [p] | VOk v => recs_of v | VErr v => recs_of v | _ => [] end.
 
-Inductive flow := FCont | FRet (v : val) | FPanic (k : N).
+Inductive flow := FCont | FRet (v : val) | FPanic (k : N) | FCancel.
+
+(** Cancellation is part of the input: [args (cancel_at k) <> 0] says that the caller drops the future while it
+    is suspended at await site [k] (the skeleton language has no loops, so a site is reached at most once).
+    The suspended frames are then torn down like an unwinding: every frame drops what it still holds, no
+    further statement runs, no event is emitted.  Quantifying over [args] therefore quantifies over "runs to
+    completion" and "cancelled at any await". *)
+Definition cancel_at (k : N) : N := 1000 + k.
 
 Fixpoint exec (args : N -> N) (s : stmt) (lv : live) : list entry * live * flow :=
   match s with
@@ -175,7 +186,7 @@ Fixpoint exec (args : N -> N) (s : stmt) (lv : live) : list entry * live * flow 
       | _ => (l1, lv1, fl)
       end
   | SIf c a b => if eval_cond args c then exec args a lv else exec args b lv
-  | SAwait k => ([EYield k; EPending], lv, FCont)
+  | SAwait k => ([EYield k; EPending], lv, if args (cancel_at k) =? 0 then FCont else FCancel)
   end.
 
 (** `#block`: the statements, then the tail expression. *)
@@ -185,6 +196,7 @@ Definition exec_block (args : N -> N) (f : func) (lv : live) : list entry * live
   | FCont => let '(l2, lv2, v) := eval_expr args (f_tail f) lv1 in (l1 ++ l2, lv2, RVal v)
   | FRet v => (l1, lv1, RVal v)
   | FPanic k => (l1, lv1, RPanic k)
+  | FCancel => (l1, lv1, RCancelled)
   end.
 
 (** Syntactic occurrences (what a `move` closure / `async move` block captures). *)
@@ -276,7 +288,7 @@ Fixpoint texec (c : collector) (args : N -> N) (f : func) (t : texp) (lv : live)
       let l := l ++ map EXDrop tmps in                      (* end of the `let` statement *)
       match r with
       | RVal v => (l ++ emit c es false v, lv', r, [])
-      | RPanic _ => (l, lv', r, [])
+      | _ => (l, lv', r, [])
       end
   | XMatch e okev errev =>
       let '(l, lv', r, tmps) := texec c args f e lv in
@@ -310,6 +322,8 @@ Definition field_eval (args : N -> N) (fs : fieldspec)
       | FxRec j p => ([TFieldEval j], [TFmt (is_display (cf_kind cf)) p],
                       [(cf_name cf, FVFmtRec (is_display (cf_kind cf)) p)])
       | FxEmpty => ([], [], [])
+      | FxShort p TRec => ([], [TFmt (is_display (cf_kind cf)) p], [(cf_name cf, FVFmtRec (is_display (cf_kind cf)) p)])
+      | FxShort p t => ([], [], [(cf_name cf, FVFmtPrim (is_display (cf_kind cf)) t (args p))])
       end
   end.
 
@@ -364,6 +378,12 @@ Definition run_sync (c : collector) (args : N -> N) (f : func) (top : ttop) : li
       (pro ++ l ++ (if on then [TExit; TClose] else []) ++ map EXDrop tmps ++ map EXDrop (rev lv'), r)
   end.
 
+(** Drop of the `Instrumented` future.  Finished or panicked: its inner future has nothing left, the drop is
+    `enter; exit`, then the span closes.  Cancelled: `Instrumented::drop` *is* what tears the inner future down, inside
+    its `enter .. exit` (in the log: the bracket that [wrap_polls] opened after the last [EPending]); only the close is left. *)
+Definition instr_drop (r : result) : list entry :=
+  match r with RCancelled => [TClose] | _ => [TEnter; TExit; TClose] end.
+
 (** Polling the future to completion; [frame] is what the outermost async frame owns. *)
 Definition run_future (c : collector) (args : N -> N) (f : func) (top : ttop) (frame : live)
   : list entry * result :=
@@ -377,15 +397,14 @@ Definition run_future (c : collector) (args : N -> N) (f : func) (top : ttop) (f
       if on
       then (* let span = span!(..); let fut = ..; if !span.is_disabled() { follows_from; fut.instrument(span).await } *)
            (span_create args sp ++ follows_part fo true ++ wrap_polls (l ++ map EXDrop tmps)
-              ++ [TEnter; TExit; TClose]             (* drop of the finished Instrumented: enter, drop inner, exit; then the span *)
-              ++ map EXDrop (rev lv'), r)
+              ++ instr_drop r ++ map EXDrop (rev lv'), r)
       else (l ++ map EXDrop tmps ++ map EXDrop (rev lv'), r)     (* else { fut.await } *)
   end.
 
 Definition fs_mentions (fs : fieldspec) : list N :=
   match fs with
   | FsParam p _ => [p]
-  | FsCustom cf => match cf_expr cf with FxPrim _ p => [p] | FxRec _ p => [p] | _ => [] end
+  | FsCustom cf => match cf_expr cf with FxPrim _ p => [p] | FxRec _ p => [p] | FxShort p _ => [p] | _ => [] end
   end.
 Definition top_mentions (top : ttop) : list N :=
   match top with TPlain => [] | TInstr sp _ _ => flat_map fs_mentions (sp_fields sp) end.
@@ -499,7 +518,7 @@ Definition ev_if (c : collector) (es : evspec) (is_err : bool) (v : val) : list 
   if event_on c (es_level es) then [TEvent (es_level es) (es_target es) is_err (es_display es) v] else [].
 Definition expected_events (c : collector) (a : attrs) (r : result) : list entry :=
   match r with
-  | RPanic _ => []
+  | RPanic _ | RCancelled => []
   | RVal v =>
       match a_err a, a_ret a with
       | None, None => []
@@ -527,7 +546,7 @@ Fixpoint param_names (a : attrs) (i : N) (ps : list param) : list fname :=
 Definition expected_names (a : attrs) (f : func) : list fname :=
   param_names a 0 (f_params f) ++ map cf_name (filter has_value (a_fields a)).
 Definition eval_index (cf : cfield) : list N :=
-  match cf_expr cf with FxNum j _ => [j] | FxPrim j _ => [j] | FxRec j _ => [j] | FxEmpty => [] end.
+  match cf_expr cf with FxNum j _ => [j] | FxPrim j _ => [j] | FxRec j _ => [j] | FxEmpty => [] | FxShort _ _ => [] end.
 
 (** `.await` is only legal in async functions. *)
 Fixpoint has_await (s : stmt) : bool :=
@@ -584,3 +603,73 @@ Fixpoint scan_multi (cur : option nat) (l : list (nat * entry)) : option (option
           match cur with None => scan_multi cur r | Some j => if Nat.eqb i j then scan_multi cur r else None end
       end
   end.
+
+(** * Shapes that translators/attr_templates.py reads off expand.rs / attr.rs (coq/gen/Gen_attr.v)
+
+    The generated file states what the source *says*; Attr/SourceTie.v proves that this is what the model
+    above implements (so a changed template breaks an obligation, not only the compiled corpus). *)
+
+(** The eight templates of gen_block, events erased. *)
+Inductive tshape :=
+| HBody | HClosureCall (s : tshape) | HAsyncAwait (s : tshape) | HLetRet (s : tshape)
+| HMatch (s : tshape) (ret_in_ok : bool).
+Fixpoint shape_of (t : texp) : tshape :=
+  match t with
+  | XBody => HBody
+  | XClosureCall e => HClosureCall (shape_of e)
+  | XAsyncAwait e => HAsyncAwait (shape_of e)
+  | XLetRet e _ => HLetRet (shape_of e)
+  | XMatch e okev _ => HMatch (shape_of e) (match okev with Some _ => true | None => false end)
+  end.
+Definition is_some {A} (o : option A) : bool := match o with Some _ => true | None => false end.
+
+(** The sync prologue: `let span; let guard; if level_enabled!(lvl) { span = span!(..); follows_from; guard = span.enter(); }`. *)
+Inductive plocal := LSpan | LGuard | LFut.
+Inductive pstep := PCreate | PFollows | PEnter.
+Definition sync_decls : list plocal := [LSpan; LGuard].
+Definition sync_steps : list pstep := [PCreate; PFollows; PEnter].
+
+Definition step_log (c : collector) (args : N -> N) (sp : spanspec) (fo : option (list N)) (s : pstep) : list entry :=
+  let on := span_on c (sp_level sp) in
+  match s with
+  | PCreate => if on then span_create args sp else []
+  | PFollows => follows_part fo on
+  | PEnter => if on then [TEnter] else []
+  end.
+(** what dropping a local of the prologue logs (locals die in reverse declaration order) *)
+Definition local_drop (on : bool) (l : plocal) : list entry :=
+  if on then match l with LSpan => [TClose] | LGuard => [TExit] | LFut => [] end else [].
+
+(** [run_sync] of an instrumented function, as an interpretation of a prologue description. *)
+Definition run_sync_steps (decls : list plocal) (steps : list pstep)
+           (c : collector) (args : N -> N) (f : func) (sp : spanspec) (fo : option (list N)) (e : texp)
+  : list entry * result :=
+  let on := span_on c (sp_level sp) in
+  let pro := if static_on c (sp_level sp) then flat_map (step_log c args sp fo) steps else [] in
+  let '(l, lv', r, tmps) := texec c args f e (all_owned f) in
+  (pro ++ l ++ flat_map (local_drop on) (rev decls) ++ map EXDrop tmps ++ map EXDrop (rev lv'), r).
+
+(** The async wrapper: `let span = span!(..); let fut = <template>; if !span.is_disabled() { follows_from;
+    fut.instrument(span).await } else { fut.await }`. *)
+Inductive astep := AFollows | AInstrumentAwait | APlainAwait.
+Definition async_lets : list plocal := [LSpan; LFut].
+Definition async_then : list astep := [AFollows; AInstrumentAwait].
+Definition async_else : list astep := [APlainAwait].
+
+Definition astep_log (fo : option (list N)) (inner : list entry) (r : result) (s : astep) : list entry :=
+  match s with
+  | AFollows => follows_part fo true
+  | AInstrumentAwait => wrap_polls inner ++ instr_drop r
+  | APlainAwait => inner
+  end.
+Definition run_future_steps (lets : list plocal) (th el : list astep)
+           (c : collector) (args : N -> N) (f : func) (sp : spanspec) (fo : option (list N)) (e : texp) (frame : live)
+  : list entry * result :=
+  let on := span_on c (sp_level sp) in
+  let '(l, lv', r, tmps) := texec c args f e frame in
+  let inner := l ++ map EXDrop tmps in
+  let create := match lets with LSpan :: _ => if on then span_create args sp else [] | _ => [] end in
+  (create ++ flat_map (astep_log fo inner r) (if on then th else el) ++ map EXDrop (rev lv'), r).
+
+(** The ret / err events of gen_block. *)
+Inductive lvldef := LDSpan | LDConst (l : N).
